@@ -172,6 +172,8 @@ package absnfs
 //@ ensures [hit-not-expired] result1 ==> old(has(c.cache, path)) && old(clock) < tsec(old(c.cache[path].expireAt))
 //@ ensures [miss-means-absent-or-expired] !result1 ==> result0 == nil && (!old(has(c.cache, path)) || tsec(old(c.cache[path].expireAt)) <= clock)
 //@ ensures [clock] clock >= old(clock)
+// a hit, positive or negative, makes the entry the most recently used one (so LRU eviction spares it)
+//@ ensures [hit-refreshes-lru] result1 ==> has(c.cache, path) && c.cache[path].listElement != nil && lmem[c.accessList][c.cache[path].listElement] && forall(e, mathint, lmem[c.accessList][e] && e != c.cache[path].listElement ==> lrank[c.accessList][c.cache[path].listElement] > lrank[c.accessList][e], lrank[c.accessList][e])
 //@ ensures [inv-shape] acShape(c) && c.accessList == old(c.accessList) && c.cache == old(c.cache)
 //@ ensures [inv-fwd] acFwd(c)
 //@ ensures [inv-back] acBack(c)
